@@ -94,7 +94,7 @@ META = {
     "C04": {
         "level": "exploration",
         "evaluations": ["recordings", "example_pairs", "check_pairs", "history_pairs"],
-        "required": ["recordings", "example_pairs", "check_pairs", "history_pairs", "long_repeat_programs", "prune_replays_with_removed_bits", "recordings_with_rejected_attempts", "digest_keys_seen_in_2_processes"],
+        "required": ["recordings", "example_pairs", "check_pairs", "history_pairs", "long_repeat_programs", "prune_replays_with_removed_bits", "recordings_with_rejected_attempts", "digest_keys_seen_in_2_processes", "abuse_histories", "abuse_draws_that_gave_up"],
         "show": ["recordings", "prune_replays_judged", "prune_replays_with_removed_bits", "example_pairs", "check_pairs", "digest_keys_seen_in_2_processes"],
         "rule": "rejection-heavy random programs x 20 seeds each: record (recording PRNG stream) -> same seed again -> replay as recorded -> "
                 "prune (real prune() vs reference prune) -> replay pruned, comparing draws and verdict; Example(seed) pairs; whole Checks with a "
@@ -138,7 +138,7 @@ META = {
     "C11": {
         "level": "exploration",
         "evaluations": ["checks_run"],
-        "required": ["runs_with_failure", "family:forced", "family:random", "verbose_runs"],
+        "required": ["runs_with_failure", "family:forced", "family:random", "verbose_runs", "family:deep-abandon", "deep_abandoned_cases"],
         "show": ["checks_run", "runs_with_failure", "cases", "verbose_runs"],
         "rule": "per-case behaviour is a function of the case's first draw: all 4^3 orders of {Errorf, Skip, cleanup-time Errorf, pass} and all ordered "
                 "pairs of 14 behaviours (incl. Skip from a cleanup, cleanups registering cleanups) are forced onto consecutive cases (dry run with the same seed yields each case's first draw), plus random "
@@ -427,6 +427,11 @@ _MORE9 = {
     "C17": "Every other of the 400 unusable entries of the many-empty-files child is a directory with the name of a fail file.",
 }
 _MORE10 = {
+    "C02": "Variant then-more-draws: after a non-fatal failure the callback goes on drawing, also values of other Custom generators, through the T it signalled on and through the enclosing T.",
+    "C03": "Family long: typed generators of long values (67 to 5000 bytes / elements: byte slices, regexp byte slices and strings, strings, integer slices, maps) drawn with the draw log on and off (MakeFuzz, Check with and without -rapid.v, the final replay of a failing Check); every value is checked when returned and again when the test case ends.",
+    "C04": "Family abuse-history: ONE generator instance (6-16 nested combinators of every kind over an often-rejecting leaf) records 24 seeds, then 2500 other seeds (a third of the draws give up and unwind through all frames) and 200 truncated replays, then the 24 seeds again: same values, same bits, same replays.",
+    "C11": "Family deep-abandon: a 600-case Check in which every second test case is abandoned 8-16 generator levels deep; the property never signals a failure and must pass.",
+    "C13": "One input in seven is TEXT (the text of a well-formed fail file of this version holding a recording of the same property, a go fuzz corpus header, hex lines, JSON): bytes like any others.",
     "C16": "Family fault: one file-system call of the save (mkdirat, openat, write, close, renameat, unlinkat; first and last call of every name in the quick tier, every call in the thorough tier) is made to FAIL (ENOSPC, EIO, EDQUOT, EACCES, EMFILE, EXDEV, EBUSY, EROFS by strace error injection); the faulted run is judged by the same trace and directory oracles, and the process is then killed at every later file-system call (of another name - strace keeps one injection per call name) of the error path the library takes. A third of the crash scenarios let minimisation run to its end first (the crash window is the whole failing Check, not only the save). Family explicit: the failing run was started with -rapid.failfile naming a file that is missing or a complete fail file that no longer reproduces (inside or outside the test's directory): that path is picked up by the next run with the same command line, so it must never be opened for writing and must hold what it held before, or a complete save, at every crash point.",
 }
 for _k, _v in _MORE10.items():
